@@ -11,8 +11,22 @@ import tempfile
 import numpy as np
 
 
+def warm_env():
+    """Compile PyDRex's own flow / pathline callables used as environment."""
+    from . import env as E
+
+    fl = E.Flow({"family": "pydrex_cell", "horizontal": "X", "vertical": "Z", "velocity_edge": 0.5})
+    fl.base(0.0, np.array([0.1, 0.0, 0.2]))
+    E.Flow({"family": "pydrex_simple_shear", "direction": "X", "plane": "Z",
+            "strain_rate": 1.0}).base(0.0, np.array([0.1, 0.0, 0.2]))
+    E.Path({"kind": "pydrex_pathline", "final": [0.3, 0.0, -0.2], "max_strain": 1.0,
+            "horizontal": "X", "vertical": "Z", "velocity_edge": 0.5}).base(0.5)
+
+
 def warm_world(restart=True, ints=True, regimes=(4, 6, 0, 1, 7), phases=(0, 1)):
     from .world import World
+
+    warm_env()
 
     for phase in phases:
         spec = {
